@@ -84,7 +84,7 @@ func c06Prop(st *CaseStats, fam int) func(t *rapid.T) {
 		sc := GenScenario(t)
 		cfg := CaseCfg{Family: fam, MaxDocs: 8, MaxIn: 3, HoldAny: true}
 		depth := rapid.SampledFrom([]int{0, 0, 1, 1, 2}).Draw(t, "depth")
-		if fam != FamSmall {
+		if fam == FamBlocks {
 			cfg.MaxIn = 2
 			depth = rapid.SampledFrom([]int{0, 0, 1}).Draw(t, "depth")
 		}
@@ -153,4 +153,10 @@ func TestC06Blocks(t *testing.T) {
 	st := NewStats("C06Blocks", c06Rule)
 	defer st.Flush()
 	rapid.Check(t, c06Prop(st, FamBlocks))
+}
+
+func TestC06ManyFields(t *testing.T) {
+	st := NewStats("C06ManyFields", c06Rule)
+	defer st.Flush()
+	rapid.Check(t, c06Prop(st, FamManyFields))
 }
